@@ -1573,6 +1573,12 @@ func (c *twoPhaseCommitter) checkAsyncCommit() bool {
 		!c.shouldWriteBinlog() {
 		totalKeySize := uint64(0)
 		for i := 0; i < c.mutations.Len(); i++ {
+			// A non-locking existence check leaves no lock and is not listed among the secondaries, so a
+			// resolver cannot see that it failed: with async commit the rest of the transaction could be
+			// recovered as committed although Commit reported the key-exists error.
+			if c.mutations.GetOp(i) == kvrpcpb.Op_CheckNotExists {
+				return false
+			}
 			totalKeySize += uint64(len(c.mutations.GetKey(i)))
 			if totalKeySize > asyncCommitCfg.TotalKeySizeLimit {
 				return false
